@@ -785,6 +785,11 @@ def large_grid_scenarios(chk, rs, prop, replay, t):
                     replay(chk, rs, c, VARIANTS_QUICK[:1])
                 except KeyError as ex:
                     raise MachineryError("large grid scenario lacks a field the replay needs: %s" % ex)
+                except MachineryError:
+                    raise
+                except Exception as ex:  # noqa: BLE001 - as in run_family: the specification predicts a result for every call
+                    chk.violation("the model predicts a result for every call of the identity replay, the code raised %s: %s" % (type(ex).__name__, str(ex)[:120]),
+                                  {"kind": "replay_exception", "config": c, "family": "large grid"}, klass=dict(rs.classify(c), check="replay_exception"))
                 n += 1
                 if len(chk.violations) > before:
                     chk.violations[-1]["what"] = "LARGE GRID %dx%d (%d modes): " % (nx, ny, g["nlx"] * g["nly"]) + chk.violations[-1]["what"]
